@@ -176,9 +176,9 @@ pub fn c17_valgrind(run: &mut Run, plain: &std::path::PathBuf, roots: &[History]
         return;
     }
     let seed = run.seed;
-    let n = 24usize;
+    let n = 48usize;
     let t0 = Instant::now();
-    let res = run_parallel(12, n, |i| {
+    let res = run_parallel(16, n, |i| {
         let mut rng = Rng::stream(seed, 0x7A16 + i as u64);
         let mut opts = SpawnOpts::default();
         opts.valgrind = true;
@@ -188,6 +188,20 @@ pub fn c17_valgrind(run: &mut Run, plain: &std::path::PathBuf, roots: &[History]
             Err(e) => return (false, vec![format!("valgrind session start failed: {}", e)], String::new()),
         };
         s.eng.keep_workdir();
+        if i % 3 == 0 {
+            // log file on: unknown lines and every command are written to a file as well
+            s.eng.send("setoption name DebugLogLevel value Info");
+        }
+        if i % 4 == 1 {
+            // a finished game (null-move answer path) and a go without a new position after it
+            s.eng.send("position fen 7k/5QQ1/8/8/8/8/8/K7 b - - 0 1");
+            for _ in 0..2 {
+                let g = s.go("", Duration::from_secs(120));
+                if g.bestmove.is_none() {
+                    notes.push("go on a finished game not answered under valgrind within 2 min".into());
+                }
+            }
+        }
         for _ in 0..3 {
             let h = &roots[rng.below(roots.len() as u64) as usize];
             s.position(h);
@@ -199,6 +213,14 @@ pub fn c17_valgrind(run: &mut Run, plain: &std::path::PathBuf, roots: &[History]
                 break;
             }
             s.eng.drain(Duration::from_millis(200));
+            if i % 5 == 2 {
+                // a second go on the board the engine itself produced
+                let g2 = s.go("", Duration::from_secs(120));
+                if g2.bestmove.is_none() {
+                    notes.push("second go not answered under valgrind within 2 min".into());
+                    break;
+                }
+            }
         }
         let eof = i % 2 == 0;
         if eof {
@@ -235,5 +257,5 @@ pub fn c17_valgrind(run: &mut Run, plain: &std::path::PathBuf, roots: &[History]
         run.acc.inconclusive.push(format!("no valgrind session completed cleanly: {:?}", incomplete.iter().take(3).collect::<Vec<_>>()));
     }
     run.set("sanitizer_incomplete_notes", json!(incomplete.iter().take(5).collect::<Vec<_>>()));
-    run.set("sanitizer_jobs", json!([{"tool": "valgrind memcheck 3.19", "program": "plain walleye binary (mimalloc included): handshake, position, garbage, timed go x3, quit or EOF", "sessions": n, "clean": clean, "wall_s": t0.elapsed().as_secs()}]));
+    run.set("sanitizer_jobs", json!([{"tool": "valgrind memcheck 3.19", "program": "plain walleye binary (mimalloc included): handshake, option line (a third), finished-game go (a quarter), position, garbage (long, multi-byte, non-UTF-8 lines included), timed go x3, go after go (a fifth), quit or EOF", "sessions": n, "clean": clean, "wall_s": t0.elapsed().as_secs()}]));
 }
